@@ -11,11 +11,11 @@ def needs(pid, tier):
     table = {
         'C02': (['ws-default'] + (['logos-forbid'] if t else []), gen, False),
         'C03': (['ws-default', 'logos-forbid'], gen, False),
-        'C04': (['fixture-cg', 'ws-default'] + (['logos-release', 'logos-forbid'] if t else []), [], t),
+        'C04': (['fixture-cg', 'ws-default'] + (['logos-release', 'logos-forbid'] if t else []), gen, t),
         'C05': (['fixture-rt', 'ws-default', 'logos-forbid'] + (['logos-release'] if t else []), GENFF if t else GENQ, t),
         'C06': ([], gen, False),
         'C07': (['ws-default'], gen, False),
-        'C08': (['fixture-cg', 'ws-default'], [], False),
+        'C08': (['fixture-cg', 'ws-default'], gen, False),
         'C09': (['fixture-cg', 'ws-default'], [], False),
         'C10': (['fixture-cg', 'ws-default'] + (['codegen-sm'] if t else []), gen, False),
         'C11': (['fixture-cg', 'ws-default'], gen, False),
@@ -26,7 +26,7 @@ def needs(pid, tier):
         'C16': (['fixture-cg', 'ws-default', 'fixture'] + (['codegen-sm'] if t else []), [], False),
         'C17': (['fixture-cg', 'ws-default', 'fixture'], [], False),
         'C18': (['fixture-cg', 'ws-default'], gen, False),
-        'C19': (['fixture-cg', 'ws-default'] + (['codegen-sm'] if t else []), [], False),
+        'C19': (['fixture-cg', 'ws-default'] + (['codegen-sm'] if t else []), gen, False),
         'C20': (['ws-default'], gen, False),
     }
     return table.get(pid, ([], [], False))
